@@ -19,7 +19,6 @@ import (
 	"strings"
 	"testing"
 	"testing/cryptotest"
-	"unsafe"
 
 	"google.golang.org/protobuf/proto"
 
@@ -54,8 +53,11 @@ var (
 func TestMain(m *testing.M) {
 	core.DeclareFaults("flip-input", "flip-input-spare", "flip-output", "flip-proto-in", "flip-proto-out", "flip-whole")
 	core.DeclareProbes("zero-len-msg", "nil-aux", "zero-spare", "spare-fits-output", "zero-cap-output", "nested-object", "ctor-rebuilt", "params-rebuilt",
-		"parse-rebuilt", "legacy-adapter", "second-key", "prim-built-after-flip", "flip-undone", "handle-mem-read", "handle-binary", "handle-json",
-		"handle-encrypted", "handle-public", "handle-nosecrets", "derived-handle", "old-output-reaccepted", "pooled-key")
+		"parse-rebuilt", "legacy-adapter", "second-key", "prim-built-after-flip", "handle-mem-read", "handle-binary", "handle-json",
+		"handle-encrypted", "handle-public", "handle-nosecrets", "derived-handle", "old-output-reaccepted", "subtle-built")
+	if core.Thorough() {
+		core.DeclareProbes("pooled-key")
+	}
 	core.Main(m, prop, "memory", map[string]string{
 		"key / parameters constructors and accessors, protoserialization, keyset.Handle / Manager, readers and writers, factories, primitives": "real",
 		"crypto/rand": "stub (simrng; same stream in both worlds)", "randomness inside the standard library": "seeded (testing/cryptotest), same in both worlds",
@@ -78,16 +80,22 @@ type entry struct {
 	variant string
 	cat     *catalog.Entry
 	stubURL string
+	sub     *subtleCase
 }
 
 var (
-	entryList []entry
-	stubList  []entry
+	entryList  []entry
+	stubList   []entry
+	subtleList []entry
 )
 
-func entries() ([]entry, []entry) {
+func entries() ([]entry, []entry, []entry) {
 	if entryList != nil {
-		return entryList, stubList
+		return entryList, stubList, subtleList
+	}
+	for i := range subtleCases {
+		sc := &subtleCases[i]
+		subtleList = append(subtleList, entry{name: "subtle/" + sc.op, class: "subtle", keyType: sc.op, variant: "RAW", sub: sc})
 	}
 	for _, e := range catalog.All() {
 		if !core.Thorough() && (e.Cost > 1 || catalog.Pooled(e)) {
@@ -102,7 +110,7 @@ func entries() ([]entry, []entry) {
 			stubList = append(stubList, entry{name: class + "/stubkm/" + v, class: class, keyType: "stubkm", variant: v, stubURL: url})
 		}
 	}
-	return entryList, stubList
+	return entryList, stubList, subtleList
 }
 
 // base is the stable prefix of primitive operation names.
@@ -169,11 +177,14 @@ var lenChoices = []int{16, 0, 1, 15, 17, 33, 64, 100, 257, 1000, 4200}
 var spareChoices = []int{0, 1, 8, 40, 300, 6000}
 
 func drawPlan(t *rapid.T) *plan {
-	cat, stubs := entries()
+	cat, stubs, subs := entries()
 	p := &plan{}
-	if rapid.IntRange(0, 7).Draw(t, "stubEntry") == 7 {
+	switch rapid.IntRange(0, 9).Draw(t, "entryKind") {
+	case 9:
 		p.ent = stubs[rapid.IntRange(0, len(stubs)-1).Draw(t, "stub")]
-	} else {
+	case 8:
+		p.ent = subs[rapid.IntRange(0, len(subs)-1).Draw(t, "subtle")]
+	default:
 		p.ent = cat[rapid.IntRange(0, len(cat)-1).Draw(t, "entry")]
 	}
 	p.poolIdx = rapid.IntRange(0, catalog.PoolKeysPerGroup-1).Draw(t, "poolIdx")
@@ -216,14 +227,18 @@ type hnd struct {
 
 type sample struct{ msg, aux, out []byte }
 
+// prim is one primitive (pair): how to produce an output and how to accept it.
 type prim struct {
-	ent     entry
-	class   string
-	base    string
-	prod    *classes.Producer
-	acc     *classes.Acceptor
-	hidx    int
-	samples []sample
+	ent      entry
+	opP, opA string // stable operation names
+	hidx     int
+	det      bool                                      // equal inputs give equal outputs without the RNG
+	produce  func(msg, aux []byte) ([]byte, error)     // Encrypt / ComputeMAC / Sign / ...
+	decrypt  func(ct, aux []byte) ([]byte, error)      // accepting side of encrypting classes: returns the plaintext
+	verify   func(out, msg, aux []byte) error          // accepting side of the other classes
+	derive   func(salt []byte) (*keyset.Handle, error) // key derivation only
+	fitMsg   func(n int) int                           // message lengths the primitive takes (nil: any)
+	samples  []sample
 }
 
 type target struct {
@@ -247,6 +262,11 @@ type rec struct {
 
 type abortB struct{}
 
+type msgRef struct {
+	call int
+	keep proto.Message
+}
+
 type world struct {
 	r       *core.Run
 	t       *rapid.T
@@ -264,7 +284,7 @@ type world struct {
 	hot     []*Buf
 	targets []*target
 	reg     Registry
-	msgPtrs map[uintptr]int // proto message pointer -> call id
+	msgPtrs map[uintptr]msgRef // proto message pointer -> call that handed it out (the message is kept alive: addresses of dead objects get reused)
 
 	log     []rec
 	marks   []int
@@ -272,14 +292,18 @@ type world struct {
 	cursor  int
 	skip    bool
 	culprit string // set while a flip's effect is being looked for
-	dirty   bool   // a mismatch was seen since the last mark
 
-	calls    int
-	stepSeq  int
-	tgtSeq   int
-	dataCtr  uint64
-	shapeCtr int
-	master   tink.AEAD
+	acc        uint64            // world A: running hash of all observations
+	ctx        string            // which object / handle is being looked at (trace only)
+	lastLogged map[string]uint64 // trace only
+
+	calls     int
+	stepSeq   int
+	tgtSeq    int
+	dataCtr   uint64
+	shapeCtr  int
+	master    tink.AEAD
+	noHandles bool // the entry's keys cannot be serialized
 
 	// statistics
 	flips     map[string]int
@@ -297,6 +321,11 @@ func (w *world) catch(op string) {
 		s := fmt.Sprintf("%T", p)
 		if s == "rapid.stopTest" || s == "rapid.invalidData" {
 			panic(p)
+		}
+		if w.faulted {
+			// world A went through the same call without a panic
+			w.mismatch(op, fmt.Sprintf("%s panicked in world B only: %v", op, p))
+			return
 		}
 		w.r.Violation("C19/panic:"+op, fmt.Sprintf("%s panicked: %v", op, p))
 	}
@@ -401,11 +430,11 @@ func (w *world) msgPtr(op string, call int, m proto.Message) {
 		return
 	}
 	p := rv.Pointer()
-	if c, ok := w.msgPtrs[p]; ok && c != call {
+	if c, ok := w.msgPtrs[p]; ok && c.call != call {
 		w.r.Violation("C19/alias-out:"+op, fmt.Sprintf("%s handed out the same %T message object as an earlier call", op, m))
 		w.knownHits++
 	}
-	w.msgPtrs[p] = call
+	w.msgPtrs[p] = msgRef{call: call, keep: m}
 }
 
 // outKeyset registers the byte fields and message objects of a keyset proto returned by tink.
@@ -637,21 +666,11 @@ func (w *world) fire(tg *target) {
 	}
 	// look for an effect right away so that it can be attributed to this very flip
 	w.culprit = tg.culprit
-	w.dirty = false
 	w.sweep(false)
-	w.culprit = ""
-	if w.faulted && w.dirty {
-		// a known finding: put the bytes back and make sure the world is whole again, then carry on
-		if tg.undo != nil {
-			tg.undo()
-			tg.undo = nil
-		}
-		if !w.verifyTwins() {
-			w.r.Logf("B: state still differs from A after undoing the flip; abandoning world B")
-			panic(abortB{})
-		}
-		w.r.Probe("flip-undone")
+	if e := w.pl.ent; e.sub != nil || e.cat == nil || e.cat.Cost == 0 {
+		w.usePrims()
 	}
+	w.culprit = ""
 }
 
 // dueFlips fires the flips scheduled up to the current step (all of them when final).
@@ -672,33 +691,6 @@ func (w *world) undoAll() {
 			w.targets[i].undo = nil
 		}
 	}
-}
-
-// verifyTwins: every key / parameters object of B equals A's (no logging, no RNG).
-func (w *world) verifyTwins() (ok bool) {
-	ok = true
-	defer func() {
-		if p := recover(); p != nil {
-			ok = false
-		}
-	}()
-	for i, o := range w.objs {
-		if i >= len(w.twin.objs) {
-			break
-		}
-		if !equalObj(o.v, w.twin.objs[i].v) {
-			return false
-		}
-	}
-	for i, h := range w.handles {
-		if i >= len(w.twin.handles) {
-			break
-		}
-		if !proto.Equal(insecurecleartextkeyset.KeysetMaterial(h.h), insecurecleartextkeyset.KeysetMaterial(w.twin.handles[i].h)) {
-			return false
-		}
-	}
-	return true
 }
 
 func equalObj(a, b any) bool {
@@ -740,22 +732,44 @@ func (w *world) mark() {
 	w.skip = false
 }
 
-func (w *world) obs(op, what string, data []byte) {
+// obs records (world A) or compares (world B) one observation. World A folds everything into one running hash
+// that goes into the run's determinism digest at the end; the trace only gets a line when a value is new or has changed.
+func (w *world) obs(op, what string, data []byte) { w.obsX(op, what, data, false) }
+
+func (w *world) obsS(op, what, s string) { w.obsX(op, what, []byte(s), true) }
+
+func (w *world) obsX(op, what string, data []byte, text bool) {
+	sum := fnv(data)
 	if !w.faulted {
-		r := rec{op: op, what: what, sum: fnv(data), n: len(data)}
+		r := rec{op: op, what: what, sum: sum, n: len(data)}
+		w.acc = (w.acc ^ sum ^ fnv([]byte(op)) ^ uint64(len(what))) * 1099511628211
 		if w.r.Tracing() {
 			r.head = bytes.Clone(data[:min(len(data), 24)])
+			k := w.ctx + "|" + op + "|" + what
+			if last, ok := w.lastLogged[k]; !ok || last != sum {
+				w.lastLogged[k] = sum
+				if text {
+					w.r.Logf("A: %s %s %s = %s", w.ctx, op, what, data)
+				} else {
+					w.r.Logf("A: %s %s %s = %s", w.ctx, op, what, core.Hex(data, 40))
+				}
+			}
 		}
 		w.log = append(w.log, r)
-		w.r.Obs(op+" "+what, data)
 		return
 	}
 	if w.skip {
 		return
 	}
+	show := func(b []byte) string {
+		if text {
+			return string(b)
+		}
+		return core.Hex(b, 32)
+	}
 	a := w.twin.log
 	if w.cursor >= len(a) {
-		w.mismatch(op, fmt.Sprintf("world B observes %s %s = %s where world A had finished the step", op, what, core.Hex(data, 32)))
+		w.mismatch(op, fmt.Sprintf("world B observes %s %s = %s where world A had finished the step", op, what, show(data)))
 		return
 	}
 	e := a[w.cursor]
@@ -764,22 +778,20 @@ func (w *world) obs(op, what string, data []byte) {
 		w.mismatch(op, fmt.Sprintf("world B observes %s %s where world A observed %s %s (control flow differs)", op, what, e.op, e.what))
 		return
 	}
-	if e.n != len(data) || e.sum != fnv(data) {
-		w.mismatch(op, fmt.Sprintf("%s %s: world B has %s (%d bytes), world A had %s (%d bytes)", op, what, core.Hex(data, 32), len(data), core.Hex(e.head, 32), e.n))
+	if e.n != len(data) || e.sum != sum {
+		w.mismatch(op, fmt.Sprintf("%s %s: world B has %s (%d bytes), world A had %s (%d bytes)", op, what, show(data), len(data), show(e.head), e.n))
 	}
 }
-
-func (w *world) obsS(op, what, s string) { w.obs(op, what, []byte(s)) }
 
 func (w *world) obsErr(op, what string, err error) {
 	if err != nil {
 		if w.r.Tracing() {
-			w.r.Logf("%s %s error: %v", op, what, err)
+			w.r.Logf("%s: %s %s error: %v", w.name(), op, what, err)
 		}
-		w.obs(op, what, []byte("err"))
+		w.obsS(op, what, "err")
 		return
 	}
-	w.obs(op, what, []byte("ok"))
+	w.obsS(op, what, "ok")
 }
 
 // mismatch: an observation of B differs from A's.
@@ -791,14 +803,11 @@ func (w *world) mismatch(op, detail string) {
 		detail = "after flipping a byte of a value that went through " + culprit + ": " + detail
 	}
 	w.r.Violation("C19/mutation-visible:"+culprit, detail)
-	// only known findings come back here
+	// Only known findings come back here. From now on world B is a different world (objects differ, calls fail):
+	// comparing it further with A would only echo this finding under other names, so B is abandoned; its flips
+	// are undone by execute.
 	w.knownHits++
-	w.skip = true
-	w.dirty = true
-	if w.culprit == "" {
-		// no single flip to undo: the rest of B would only echo this finding
-		panic(abortB{})
-	}
+	panic(abortB{})
 }
 
 // ---------------------------------------------------------------------------
@@ -821,13 +830,13 @@ type minfo struct {
 }
 
 var (
-	methodCache = map[reflect.Type][]minfo{}
+	methodCache    = map[reflect.Type][]minfo{}
 	pendingSkipped []string
-	tBytes      = reflect.TypeOf([]byte(nil))
-	tSecret     = reflect.TypeOf(secretdata.Bytes{})
-	tKey        = reflect.TypeOf((*key.Key)(nil)).Elem()
-	tParams     = reflect.TypeOf((*key.Parameters)(nil)).Elem()
-	tErr        = reflect.TypeOf((*error)(nil)).Elem()
+	tBytes         = reflect.TypeOf([]byte(nil))
+	tSecret        = reflect.TypeOf(secretdata.Bytes{})
+	tKey           = reflect.TypeOf((*key.Key)(nil)).Elem()
+	tParams        = reflect.TypeOf((*key.Parameters)(nil)).Elem()
+	tErr           = reflect.TypeOf((*error)(nil)).Elem()
 )
 
 func typeLabel(t reflect.Type) string {
@@ -931,6 +940,10 @@ const maxObjs = 64
 // sweepObj calls every accessor of one object, checks (b) on what comes back and logs the values for (c).
 func (w *world) sweepObj(i int, flippable bool) {
 	o := w.objs[i]
+	if w.r.Tracing() {
+		w.ctx = fmt.Sprintf("obj%d(%s)", i, o.origin)
+		defer func() { w.ctx = "" }()
+	}
 	// twin equality
 	func() {
 		defer w.catch(o.label + ".Equal")
@@ -986,10 +999,13 @@ func (w *world) sweepObj(i int, flippable bool) {
 					w.obsS(mi.op, "same", fmt.Sprint(equalObj(x, w.objs[j].v)))
 					return
 				}
-				if len(w.objs) < maxObjs {
+				if _, ok := o.kids[mi.name]; !ok && len(w.objs) < maxObjs {
+					before := len(w.objs)
 					j := w.addObj(x, mi.op, -1)
 					o.kids[mi.name] = j
-					w.r.Probe("nested-object")
+					if j == before {
+						w.r.Probe("nested-object")
+					}
 				}
 				w.setAdd("accessors", mi.op)
 			case mScalar:
@@ -1014,6 +1030,10 @@ func marshal(m proto.Message) []byte {
 // sweepHandle exports a handle in every way and logs the results.
 func (w *world) sweepHandle(i int, flippable bool) {
 	h := w.handles[i]
+	if w.r.Tracing() {
+		w.ctx = fmt.Sprintf("handle%d(%s)", i, h.origin)
+		defer func() { w.ctx = "" }()
+	}
 	const opInfo, opMat, opStr = "keyset.(*Handle).KeysetInfo", "insecurecleartextkeyset.KeysetMaterial", "keyset.(*Handle).String"
 	func() {
 		defer w.catch(opInfo)
@@ -1100,6 +1120,10 @@ func (w *world) pickKey(arg int) int {
 
 func (w *world) newKey(first bool) {
 	e := w.pl.ent
+	if e.sub != nil {
+		w.subtleBuild()
+		return
+	}
 	if e.cat == nil {
 		w.stubHandle()
 		return
@@ -1125,6 +1149,13 @@ func (w *world) newKey(first bool) {
 	}
 	i := w.addObj(k, op, -1)
 	w.keys = append(w.keys, i)
+	if _, err := protoserialization.SerializeKey(k); err != nil {
+		// e.g. RSA-SSA-PSS with salt length 0: the key works but has no serialization, so a handle holding it cannot
+		// be exported (KeysetInfo panics). Nothing C19 talks about; such keys are exercised without handles.
+		w.noHandles = true
+		w.r.Count("unserializable-key", 1)
+		w.setAdd("unserializable", e.name)
+	}
 }
 
 // stubHandle builds a keyset proto of a stub key type (no key parser: tink wraps it into a fallback proto key) and reads it.
@@ -1424,19 +1455,45 @@ func (w *world) stepParse(arg int) {
 }
 
 func (w *world) stepPrims(arg int) *prim {
+	if w.pl.ent.sub != nil {
+		return w.subtleBuild()
+	}
 	hi := w.anyHandle(arg)
 	e := w.pl.ent
 	op := e.base() + ".New"
-	p := &prim{ent: e, class: e.class, base: e.base(), hidx: hi}
+	names := opNames[e.class]
+	p := &prim{ent: e, opP: e.base() + "." + names[0], opA: e.base() + "." + names[1], hidx: hi}
 	var err error
 	func() {
 		defer w.catch(op)
-		p.prod, err = classes.NewProducer(e.class, w.handles[hi].h)
+		var prod *classes.Producer
+		var acc *classes.Acceptor
+		prod, err = classes.NewProducer(e.class, w.handles[hi].h)
 		if err != nil {
 			return
 		}
-		if e.class != classes.KeyDerivation {
-			p.acc, err = classes.NewAcceptor(e.class, w.handles[hi].h)
+		p.produce, p.det = prod.Produce, prod.Deterministic
+		if e.class == classes.KeyDerivation {
+			if d, ok := prod.Raw.(interface {
+				DeriveKeyset(salt []byte) (*keyset.Handle, error)
+			}); ok {
+				p.derive = d.DeriveKeyset
+			}
+			return
+		}
+		acc, err = classes.NewAcceptor(e.class, w.handles[hi].h)
+		if err != nil {
+			return
+		}
+		switch e.class {
+		case "aead":
+			p.decrypt = acc.Raw.(tink.AEAD).Decrypt
+		case "daead":
+			p.decrypt = acc.Raw.(tink.DeterministicAEAD).DecryptDeterministically
+		case "hybrid":
+			p.decrypt = acc.Raw.(tink.HybridDecrypt).Decrypt
+		default:
+			p.verify = acc.Accept
 		}
 	}()
 	w.obsErr(op, "build", err)
@@ -1458,8 +1515,7 @@ func (w *world) stepPrims(arg int) *prim {
 
 // useOnce: one produce and one accept with caller buffers of the drawn shapes.
 func (w *world) useOnce(p *prim, msg, aux []byte, auxNil bool, keepSample, flippable bool) {
-	names := opNames[p.class]
-	opP := p.base + "." + names[0]
+	opP := p.opP
 	spM, spA := w.nextSpare(), w.nextSpare()
 	mb := w.in(opP, "message", msg, spM)
 	var ab *Buf
@@ -1477,7 +1533,7 @@ func (w *world) useOnce(p *prim, msg, aux []byte, auxNil bool, keepSample, flipp
 	var err error
 	func() {
 		defer w.catch(opP)
-		out, err = p.prod.Produce(mb.Slice(), auxS)
+		out, err = p.produce(mb.Slice(), auxS)
 	}()
 	w.done(opP)
 	w.obsErr(opP, "err", err)
@@ -1504,17 +1560,15 @@ func (w *world) useOnce(p *prim, msg, aux []byte, auxNil bool, keepSample, flipp
 	if keepSample && len(p.samples) < 4 {
 		p.samples = append(p.samples, sample{msg: bytes.Clone(msg), aux: bytes.Clone(aux), out: pristine})
 	}
-	if p.acc != nil {
+	if p.decrypt != nil || p.verify != nil {
 		w.acceptOnce(p, pristine, msg, aux, auxNil, flippable)
-	} else if dh, ok := p.prod.Raw.(interface {
-		DeriveKeyset(salt []byte) (*keyset.Handle, error)
-	}); ok && keepSample && len(w.handles) < 12 {
+	} else if p.derive != nil && keepSample && len(w.handles) < 12 {
 		// key derivation: the derived handle is a handle like any other
 		in := w.in(opP, "salt", msg, w.nextSpare())
 		var h *keyset.Handle
 		func() {
 			defer w.catch(opP)
-			h, err = dh.DeriveKeyset(in.Slice())
+			h, err = p.derive(in.Slice())
 		}()
 		w.done(opP)
 		if err == nil && h != nil {
@@ -1537,7 +1591,7 @@ func (w *world) obsOutput(p *prim, op string, out, msg, aux []byte, auxNil bool)
 	}
 	if w.cursor < len(w.twin.log) {
 		e := w.twin.log[w.cursor]
-		if e.op == op && e.what == "out" && (e.n != len(out) || e.sum != fnv(out)) && !p.prod.Deterministic {
+		if e.op == op && e.what == "out" && (e.n != len(out) || e.sum != fnv(out)) && !p.det {
 			// is the operation reproducible at all under an identical RNG stream?
 			off := w.g.Offset(0)
 			var a, b []byte
@@ -1547,10 +1601,10 @@ func (w *world) obsOutput(p *prim, op string, out, msg, aux []byte, auxNil bool)
 				if !auxNil {
 					auxS = bytes.Clone(aux)
 				}
-				a, _ = p.prod.Produce(bytes.Clone(msg), auxS)
+				a, _ = p.produce(bytes.Clone(msg), auxS)
 				end := w.g.Offset(0)
 				w.g.SetOffset(0, off)
-				b, _ = p.prod.Produce(bytes.Clone(msg), auxS)
+				b, _ = p.produce(bytes.Clone(msg), auxS)
 				w.g.SetOffset(0, end)
 			}()
 			w.g.SetOffset(0, off)
@@ -1566,8 +1620,7 @@ func (w *world) obsOutput(p *prim, op string, out, msg, aux []byte, auxNil bool)
 }
 
 func (w *world) acceptOnce(p *prim, out, msg, aux []byte, auxNil bool, flippable bool) {
-	names := opNames[p.class]
-	opA := p.base + "." + names[1]
+	opA := p.opA
 	cb := w.in(opA, "ciphertext/tag/signature", out, w.nextSpare())
 	mb := w.in(opA, "message", msg, w.nextSpare())
 	var ab *Buf
@@ -1580,15 +1633,10 @@ func (w *world) acceptOnce(p *prim, out, msg, aux []byte, auxNil bool, flippable
 	var err error
 	func() {
 		defer w.catch(opA)
-		switch p.class {
-		case "aead":
-			pt, err = p.acc.Raw.(tink.AEAD).Decrypt(cb.Slice(), auxS)
-		case "daead":
-			pt, err = p.acc.Raw.(tink.DeterministicAEAD).DecryptDeterministically(cb.Slice(), auxS)
-		case "hybrid":
-			pt, err = p.acc.Raw.(tink.HybridDecrypt).Decrypt(cb.Slice(), auxS)
-		default:
-			err = p.acc.Accept(cb.Slice(), mb.Slice(), auxS)
+		if p.decrypt != nil {
+			pt, err = p.decrypt(cb.Slice(), auxS)
+		} else {
+			err = p.verify(cb.Slice(), mb.Slice(), auxS)
 		}
 	}()
 	w.done(opA)
@@ -1596,12 +1644,11 @@ func (w *world) acceptOnce(p *prim, out, msg, aux []byte, auxNil bool, flippable
 	w.setAdd("ops", opA)
 	if err != nil {
 		if !w.faulted {
-			w.fatalf("%s of %s rejects what %s produced in the pristine world: %v", opA, p.ent.name, names[0], err)
+			w.fatalf("%s of %s rejects what %s produced in the pristine world: %v", opA, p.ent.name, p.opP, err)
 		}
 		return
 	}
-	switch p.class {
-	case "aead", "daead", "hybrid":
+	if p.decrypt != nil {
 		call := w.newCall()
 		w.out(opA, call, pt, flippable)
 		w.obs(opA, "plaintext", pt)
@@ -1634,6 +1681,9 @@ func (w *world) stepOp(arg int) {
 	if p.ent.cat != nil && p.ent.cat.Cost >= 2 && ml > 100 {
 		ml = 100
 	}
+	if p.fitMsg != nil {
+		ml = p.fitMsg(ml)
+	}
 	w.useOnce(p, w.data(ml), w.data(al), al == 0 && arg%2 == 1, true, true)
 }
 
@@ -1647,7 +1697,7 @@ func (w *world) usePrims() {
 		} else {
 			w.useOnce(p, canonMsg, canonAux, false, false, false)
 		}
-		if p.acc != nil && len(p.samples) > 0 {
+		if (p.decrypt != nil || p.verify != nil) && len(p.samples) > 0 {
 			s := p.samples[0]
 			w.acceptOnce(p, s.out, s.msg, s.aux, false, false)
 			w.r.Probe("old-output-reaccepted")
@@ -1661,6 +1711,25 @@ func (w *world) step(s stepSpec) {
 	w.groups[stepGroup[s.kind]] = true
 	if w.r.Tracing() {
 		w.r.Logf("%s: step %d %s(%d)", w.name(), w.stepSeq, stepNames[s.kind], s.arg)
+	}
+	if w.pl.ent.sub != nil {
+		// subtle primitives have no key objects and no handles: every step is about primitives
+		switch s.kind {
+		case sOp, sSweep, sCtor, sParse:
+			w.stepOp(s.arg)
+		case sPrims, sSecondKey:
+			if len(w.prims) < 4 {
+				w.subtleBuild()
+			}
+		default:
+			w.usePrims()
+		}
+		w.endStep(stepNames[s.kind])
+		return
+	}
+	if w.noHandles && s.kind != sSweep && s.kind != sCtor && s.kind != sSecondKey {
+		w.endStep(stepNames[s.kind])
+		return
 	}
 	switch s.kind {
 	case sSweep:
@@ -1747,7 +1816,7 @@ func (w *world) execute() {
 	w.dueFlips(true)
 	w.sweep(false)
 	w.usePrims()
-	if len(w.handles) > 0 && len(w.prims) < 5 {
+	if (len(w.handles) > 0 || w.pl.ent.sub != nil) && len(w.prims) < 5 && !w.noHandles {
 		w.mark()
 		if p := w.stepPrims(0); p != nil {
 			w.useOnce(p, []byte("built after everything"), []byte("x"), false, false, false)
@@ -1757,8 +1826,8 @@ func (w *world) execute() {
 }
 
 func newWorld(t *rapid.T, r *core.Run, pl *plan, twin *world) *world {
-	return &world{r: r, t: t, pl: pl, faulted: twin != nil, twin: twin, byPtr: map[uintptr]int{}, msgPtrs: map[uintptr]int{},
-		flips: map[string]int{}, groups: map[byte]bool{}, accSeen: map[string]bool{}}
+	return &world{r: r, t: t, pl: pl, faulted: twin != nil, twin: twin, byPtr: map[uintptr]int{}, msgPtrs: map[uintptr]msgRef{},
+		flips: map[string]int{}, groups: map[byte]bool{}, accSeen: map[string]bool{}, lastLogged: map[string]uint64{}}
 }
 
 func runWorld(t *rapid.T, r *core.Run, pl *plan, twin *world) *world {
@@ -1783,6 +1852,7 @@ func run(t *rapid.T) {
 		r.Logf("plan: entry %s steps %s msgLens %v auxLens %v spares %v flipOn %v delay %v whole %v", pl.ent.name, sb.String(), pl.msgLens, pl.auxLens, pl.spares, pl.flipOn, pl.flipDelay, pl.flipWhole)
 	}
 	a := runWorld(t, r, pl, nil)
+	r.ObsI("world-A-observations", int64(a.acc))
 	b := runWorld(t, r, pl, a)
 	if !b.aborted && !a.aborted && b.knownHits == 0 {
 		if b.markN != len(a.marks) || len(b.objs) != len(a.objs) || len(b.handles) != len(a.handles) {
@@ -1791,6 +1861,7 @@ func run(t *rapid.T) {
 		}
 	}
 	// coverage
+	reportInventory(r.SetAdd)
 	for _, s := range pendingSkipped {
 		r.SetAdd("accessors-skipped", s)
 	}
@@ -1825,4 +1896,3 @@ func run(t *rapid.T) {
 	r.End(sig, nflips > 0)
 }
 
-var _ = unsafe.Pointer(nil)
